@@ -329,6 +329,23 @@ def handle (op : String) (j : Json) : Except String Json := do
   | "chains" =>
     let runs ← (← (← j.getObjVal? "runs").getArr?).toList.mapM runOfJson
     handleChains j runs
+  | "subdir" =>
+    -- {cwd, builtin, files, dirs, ops: [["config", "pipes"] | ["import"] | ["lookup", name] | ["child", name]…]}
+    -- → [{ok}|{err}] for every lookup / child op (`Resolve.runSub`: where `config.pipelines_subdir` is read)
+    let fs ← fsOfJson j
+    let subOf (t : String) : Except String (List String) :=
+      let parts := t.splitOn "/"
+      if parts.any badSeg then .error s!"sub-directory outside the domain: {t}" else pure parts
+    let ops ← (← (← j.getObjVal? "ops").getArr?).toList.mapM fun e => do
+      match (← e.getArr?).toList with
+      | [.str "config", .str t] => pure (SubOp.setConfig (← subOf t))
+      | [.str "import"] => pure SubOp.importLoader
+      | [.str "lookup", .str n] => pure (SubOp.lookup (← nameOfStr n))
+      | [.str "child", .str n] => pure (SubOp.lookupChild (← nameOfStr n))
+      | _ => .error "bad subdir op"
+    pure (Json.arr ((runSub fs {} ops).map fun r => match r with
+      | .ok p => Json.mkObj [("ok", Json.str (pathStr p))]
+      | .error e => Json.mkObj [("err", Json.str e)]).toArray)
   | _ => .error s!"unknown op {op}"
 
 end Pypyr.OpResolve
